@@ -1,27 +1,30 @@
 package sqlgen
 
 import (
-	"fmt"
-	"sort"
+	"strings"
 	"testing"
-	"time"
 
 	"pgregory.net/rapid"
 )
 
-func TestSample(t *testing.T) {
-	n := 0
-	var lens []int
-	start := time.Now()
+// TestGenSmoke: Gen terminates, produces text, and keeps its metadata
+// consistent with the statement kind.
+func TestGenSmoke(t *testing.T) {
 	rapid.Check(t, func(rt *rapid.T) {
 		d := Dialect(rapid.IntRange(0, 1).Draw(rt, "d"))
 		s := Gen(rt, Options{Dialect: d, Portable: d == SQLite})
-		n++
-		lens = append(lens, len(s.SQL))
-		if n%97 == 0 {
-			fmt.Printf("-- %s\n%s\n", s.Kind, s.SQL)
+		if strings.TrimSpace(s.SQL) == "" {
+			rt.Fatalf("empty statement")
+		}
+		switch s.Kind {
+		case Insert, Update, Delete:
+			if len(s.Writes) != 1 {
+				rt.Fatalf("%s: writes=%v", s.Kind, s.Writes)
+			}
+		case Select:
+			if len(s.Writes) != 0 || s.DDL {
+				rt.Fatalf("select with writes/ddl: %+v", s)
+			}
 		}
 	})
-	sort.Ints(lens)
-	fmt.Println("n", n, "median", lens[len(lens)/2], "p90", lens[len(lens)*9/10], "max", lens[len(lens)-1], "per case", time.Since(start)/time.Duration(n))
 }
